@@ -26,6 +26,7 @@ extern "C" {
 #define g_tb(n) g_ti[3 + 4 * (n)]
 #define g_tc(n) g_ti[4 + 4 * (n)]
   double nondet_double();
+  int k_tnode(int op, int a, int b, int c, double val, int isleaf);
 }
 struct sreal {
   double v; int id;
@@ -35,6 +36,11 @@ struct sreal {
   sreal(long x) { v = (double) x; id = leaf(v); }
   sreal(long long x) { v = (double) x; id = leaf(v); }
   sreal(unsigned long x) { v = (double) x; id = leaf(v); }
+#ifdef CVS_TNODE_CALL
+  // node creation through one contract-replaced call (cheaper under dfcc than six instrumented writes)
+  static int leaf(double x) { return k_tnode(T_LEAF, -1, -1, -1, x, 1); }
+  static sreal node(int op, int a, int b, int c = -1) { sreal r; int n = k_tnode(op, a, b, c, 0.0, 0); r.id = n; r.v = g_tv[n]; return r; }
+#else
   static int leaf(double x) {
     int n = g_tn; CVS_ASSERT(n >= 0 && n < T_NT, "term table capacity (modelling limit)");
     g_top(n) = T_LEAF; g_ta(n) = -1; g_tb(n) = -1; g_tc(n) = -1; g_tv[n] = x; g_tn = n + 1; return n;
@@ -44,6 +50,7 @@ struct sreal {
     double val = nondet_double(); __CPROVER_assume(val >= -1.0e300 && val <= 1.0e300);
     g_top(n) = op; g_ta(n) = a; g_tb(n) = b; g_tc(n) = c; g_tv[n] = val; g_tn = n + 1; r.v = val; r.id = n; return r;
   }
+#endif
   // an operand that was never given a value (default-constructed) becomes a leaf 0.0 on first use
   int nid() const { return id >= 0 ? id : leaf(v); }
   sreal operator-() const { return node(T_NEG, nid(), -1); }
